@@ -562,6 +562,15 @@ def main():
         elif a[i] == '--replay': i += 1; return do_replay(prop, a[i])
         i += 1
     R = Runner(prop, tier, only, keep, jobs)
+    def on_term(signum, frame):      # a check that is stopped from outside must not leave solver processes behind (they run in their own sessions)
+        R.abort = True
+        got = R.run_lock.acquire(timeout=2)
+        for pid in list(R.running):
+            try: os.killpg(pid, signal.SIGKILL)
+            except ProcessLookupError: pass
+        if got: R.run_lock.release()
+        R.say('BROKEN: check interrupted by signal %d' % signum); R.cleanup(); os._exit(2)
+    signal.signal(signal.SIGTERM, on_term); signal.signal(signal.SIGINT, on_term); signal.signal(signal.SIGHUP, on_term)
     try:
         return R.main()
     except Broken as e:
